@@ -33,6 +33,9 @@ def check(run):
         from analysis.guards import rule_visits_all as _rva
         run.guard("C11.6.every-line", cfg, lambda: _rva(run, "C11.6.every-line", F, cfg, ['lists::parse_filters_with_metadata', 'lists::FilterSet::add_filters', 'lists::FilterSet::add_filter_list'],
                   'Every line of a list is parsed on its own: a rejected line must not end the walk over the remaining lines', minimum=2))
+        from . import C02 as _C02h
+        bh = run.borrow("C02", only=r"ascii-host|host-verbatim|www-", why="a hosts entry must name the same host as `||entry^`: both go through the one host normalisation of NetworkFilter::parse (lower-case, strip `www.`, then punycode of exactly that text)")
+        run.guard("C11.via.C02.7.host-verbatim", cfg, lambda: (_C02h.rule_host_verbatim(bh, F, cfg), _C02h.rule_ascii_host_verbatim(bh, F, cfg)))
         run.guard("C11.1.totality", cfg, lambda: a7.check_cone(
             run, "C11.1.totality", F, cfg, a7_cones.PARSE_ROOTS, a7_common.rows(), a7_common.ALL,
             floor=140, label="list-parsing"))
